@@ -37,17 +37,35 @@ pub fn variant() -> Option<String> {
 /// The child's VIOLATION / KNOWN-FINDING lines are forwarded, its coverage is embedded in this
 /// run's evidence under `sync_build`. Returns the child's verdict (0 / 1) or 2 on machinery error.
 pub fn run_variant(rep: &mut Report, v: &str, exe: &str) -> i32 {
+    let child = start_variant(&rep.id, rep.tier, v, exe);
+    finish_variant(rep, v, exe, child)
+}
+
+/// Starts the variant build's run in the background (None when this process is itself a variant).
+pub fn start_variant(id: &str, tier: Tier, v: &str, exe: &str) -> Option<std::io::Result<std::process::Child>> {
     if variant().is_some() {
-        return 0;
+        return None;
     }
-    let ev = format!("{}/harness/variant-evidence/{}.{}.json", VERIF_DIR, rep.id, v);
+    let ev = format!("{}/harness/variant-evidence/{}.{}.json", VERIF_DIR, id, v);
     let _ = std::fs::remove_file(&ev);
-    let out = std::process::Command::new(exe)
-        .arg(&rep.id)
-        .arg(rep.tier.name())
-        .env("TV_VARIANT", v)
-        .output();
-    let o = match out {
+    Some(
+        std::process::Command::new(exe)
+            .arg(id)
+            .arg(tier.name())
+            .env("TV_VARIANT", v)
+            .stdout(std::process::Stdio::piped())
+            .stderr(std::process::Stdio::piped())
+            .spawn(),
+    )
+}
+
+pub fn finish_variant(rep: &mut Report, v: &str, exe: &str, child: Option<std::io::Result<std::process::Child>>) -> i32 {
+    let child = match child {
+        None => return 0,
+        Some(c) => c,
+    };
+    let ev = format!("{}/harness/variant-evidence/{}.{}.json", VERIF_DIR, rep.id, v);
+    let o = match child.and_then(|c| c.wait_with_output()) {
         Ok(o) => o,
         Err(e) => {
             eprintln!("machinery error: cannot run the {} build {}: {}", v, exe, e);
